@@ -431,6 +431,29 @@ def run_modifiers(ctx, n):
             V(ctx, f"modifier-accessors:{tname}", f"two_digit_year_max/template_value accessors report {getattr(q, 'two_digit_year_max', None)!r}/{getattr(q, 'template_value', None)!r}", case)
 
 
+def run_designators(ctx):
+    """Cultures whose AM and PM designators share a prefix, in either direction, or differ only in case / length."""
+    from pyoda_time import LocalDateTime, LocalTime
+    from pyoda_time._compatibility._culture_info import CultureInfo
+    from pyoda_time import text as T
+    rng = ctx.rng
+    for am, pm in (("pd", "p"), ("p", "pd"), ("AMx", "am"), ("am", "AMx"), ("a", "ab"), ("ab", "a"), ("Foo", "FooBar"), ("FooBar", "Foo"), ("x.", "x"), ("上午", "上"), ("AM", "PM")):
+        try:
+            c = CultureInfo("en-US").clone(); c.date_time_format.am_designator = am; c.date_time_format.pm_designator = pm
+        except Exception as e:  # noqa: BLE001
+            ctx.exc(e); continue
+        for tname, P, pt, mk in (("LocalTime", T.LocalTimePattern, "hh:mm tt", lambda h, m: LocalTime(h, m)), ("LocalTime", T.LocalTimePattern, "h tt", lambda h, m: LocalTime(h, 0)),
+                                 ("LocalTime", T.LocalTimePattern, "tt hh.mm", lambda h, m: LocalTime(h, m)), ("LocalDateTime", T.LocalDateTimePattern, "uuuu-MM-dd hh:mm tt", lambda h, m: LocalDateTime(2024, 5, 6, h, m))):
+            try:
+                p = P.create(pt, c)
+            except Exception as e:  # noqa: BLE001
+                ctx.exc(e); continue
+            for h in range(24):
+                v = mk(h, rng.choice([0, 7, 59]))
+                ctx.key(("designators", am, pm, tname, pt))
+                check_roundtrip(ctx, tname, p, pt, f"en-US with AM={am!r} PM={pm!r}", v, True, "custom_roundtrips")
+
+
 def run(ctx, shard):
     for k in REQUIRED["any"] + ["generated_pattern_rejected", "create_raised_other", "prefix_cultures_found", "case_length_cultures_found", "case_length_patterns"]:
         ctx.counters.setdefault(k, 0)
@@ -439,6 +462,7 @@ def run(ctx, shard):
     elif t == "builtin":
         run_builtin(ctx, shard["n"])
         run_modifiers(ctx, max(60, shard["n"] // 10))
+        run_designators(ctx)
     elif t == "standard": run_standard(ctx, shard["cultures"], shard["i"], shard["k"])
     else: run_type(ctx, t, shard["cultures"], shard["patterns"])
 
